@@ -11,11 +11,20 @@ Open Scope Z_scope.
 
 
 (* ---------- paths ---------- *)
+Lemma nvdir_eqb_eq a b : nvdir_eqb a b = true <-> a = b.
+Proof.
+  destruct a, b; cbn; split; intros H; try discriminate.
+  - apply bytes_eqb_eq in H. subst. reflexivity.
+  - inversion H; subst. apply bytes_eqb_eq. reflexivity.
+  - apply Z.eqb_eq in H. subst. reflexivity.
+  - inversion H; subst. apply Z.eqb_refl.
+Qed.
+
 Lemma dirs_eqb_eq a : forall b, dirs_eqb a b = true <-> a = b.
 Proof.
   induction a as [|x a IH]; destruct b as [|y b]; cbn; split; intros H; try discriminate; try reflexivity.
-  - apply andb_true_iff in H. destruct H as [H1 H2]. apply bytes_eqb_eq in H1. apply IH in H2. subst. reflexivity.
-  - inversion H; subst. apply andb_true_iff. split; [apply bytes_eqb_eq|apply IH]; reflexivity.
+  - apply andb_true_iff in H. destruct H as [H1 H2]. apply nvdir_eqb_eq in H1. apply IH in H2. subst. reflexivity.
+  - inversion H; subst. apply andb_true_iff. split; [apply nvdir_eqb_eq|apply IH]; reflexivity.
 Qed.
 
 Lemma nvname_eqb_eq a b : nvname_eqb a b = true <-> a = b.
@@ -61,31 +70,33 @@ Proof.
 Qed.
 
 (* ---------- unfolding ---------- *)
-Definition ext_one (rec : list bytes -> nstore -> outcome nvfs) (dirs : list bytes) (v : nvar) : outcome nvfs :=
-  let dv := dirs ++ [v_guid v] in
+Definition ext_one (rec : list nvdir -> nstore -> outcome nvfs) (dirs : list nvdir) (v : nvar) : outcome nvfs :=
+  let dv := dirs ++ [ND_guid (v_guid v)] in
+  let dk := dv ++ [ND_off (v_off v)] in
   if is_valid v then
     match v_sub v with
     | None =>
       do c <- of_opt 601 (slice (v_dataoff v) (zlen (v_buf v)) (v_buf v));
       Ok [((dv, nv_own_name v), c)]
-    | Some ns => rec dv ns
+    | Some ns => rec dk ns
     end
   else
-    do kids <- (match v_sub v with None => Ok [] | Some ns => rec dv ns end);
+    do kids <- (match v_sub v with None => Ok [] | Some ns => rec dk ns end);
     Ok (((dv, nv_own_name v), v_buf v) :: kids).
 
 Lemma nv_extract_S d dirs s : nv_extract (S d) dirs s =
   do fs <- map_out (ext_one (nv_extract d) dirs) (s_entries s); Ok (concat fs).
 Proof. reflexivity. Qed.
 
-Definition paths_one (rec : list bytes -> nstore -> list nvpath) (dirs : list bytes) (v : nvar) : list nvpath :=
-  let dv := dirs ++ [v_guid v] in
+Definition paths_one (rec : list nvdir -> nstore -> list nvpath) (dirs : list nvdir) (v : nvar) : list nvpath :=
+  let dv := dirs ++ [ND_guid (v_guid v)] in
+  let dk := dv ++ [ND_off (v_off v)] in
   if is_valid v then
     match v_sub v with
     | None => [(dv, nv_own_name v)]
-    | Some ns => rec dv ns
+    | Some ns => rec dk ns
     end
-  else (dv, nv_own_name v) :: (match v_sub v with None => [] | Some ns => rec dv ns end).
+  else (dv, nv_own_name v) :: (match v_sub v with None => [] | Some ns => rec dk ns end).
 
 Lemma nv_all_paths_S d dirs s : nv_all_paths (S d) dirs s =
   concat (map (paths_one (nv_all_paths d) dirs) (s_entries s)).
@@ -145,9 +156,10 @@ with srel : nstore -> nstore -> Prop :=
 (* ---------- ParseDir of what Extract wrote is related to the store ---------- *)
 Definition nvholds (F f : nvfs) : Prop := forall p b, In (p, b) f -> nvfs_read F p = Some b.
 
-Definition rel_one (rec : list bytes -> nstore -> outcome nstore) (F : nvfs) (dirs : list bytes) (v : nvar)
+Definition rel_one (rec : list nvdir -> nstore -> outcome nstore) (F : nvfs) (dirs : list nvdir) (v : nvar)
   : outcome nvar :=
-  let dv := dirs ++ [v_guid v] in
+  let dv := dirs ++ [ND_guid (v_guid v)] in
+  let dk := dv ++ [ND_off (v_off v)] in
   let has_file := negb (is_valid v) || (match v_sub v with None => true | Some _ => false end) in
   do file <- (if has_file && sv_nv_path then
                 match nvfs_read F (dv, nv_own_name v) with
@@ -157,7 +169,7 @@ Definition rel_one (rec : list bytes -> nstore -> outcome nstore) (F : nvfs) (di
               else Ok []);
   do sub' <- (match v_sub v with
               | None => Ok None
-              | Some ns => do ns' <- rec dv ns; Ok (Some ns')
+              | Some ns => do ns' <- rec dk ns; Ok (Some ns')
               end);
   let valid' := is_valid_type (if sv_nv_type then v_type v else 0) in
   let buf := if valid' then zrepeat 0 (if sv_nv_dataoff then v_dataoff v else 0) ++ file else file in
@@ -235,7 +247,7 @@ Proof.
         change (if sv_nv_type then v_type v else 0) with (v_type v).
         unfold is_valid in IV. rewrite IV.
         destruct (v_sub v) as [ns|] eqn:SUB; cbn [bind] in Hv.
-        + destruct (nv_extract d (dirs ++ [v_guid v]) ns) as [k| | |] eqn:Ek; cbn [bind] in Hv; inversion Hv; subst.
+        + destruct (nv_extract d ((dirs ++ [ND_guid (v_guid v)]) ++ [ND_off (v_off v)]) ns) as [k| | |] eqn:Ek; cbn [bind] in Hv; inversion Hv; subst.
           rewrite (HF1 _ (v_buf v)) by (left; reflexivity). cbn [bind].
           assert (HFk : nvholds F k) by (intros p b Hin; apply HF1; right; exact Hin).
           destruct (IH _ _ _ F Ek HFk) as (ns' & Rns & Sns). rewrite Rns. cbn [bind].
